@@ -43,6 +43,62 @@ def check_exact(arg):
     return fails, 1
 
 
+ADDRS = {"ios": ["any", "host 10.0.0.1", "10.0.0.0 0.0.0.255", "10.0.0.0 0.0.1.3", "10.9.0.0 0.0.0.255", "10.0.0.0 0.0.3.3"],
+         "nxos": ["any", "10.0.0.1/32", "10.0.0.0/24", "10.0.0.0 0.0.1.3", "10.9.0.0/24", "10.0.0.0 0.0.3.3"]}
+
+
+def check_edit_history(arg):
+    """ask, reassign one address of one entry in place (line or prefix), ask again: the second answer is the exact one for the new text
+    (also inside an Acl, and also when the first question was asked through another entry point)"""
+    import cisco_acl
+    platform, side, who, a_top, a_bot, a_new, first, setter = arg
+    mk = (lambda a: f"permit ip {a} any") if side == "src" else (lambda a: f"permit ip any {a}")
+    top, bot = sc.make_ace(mk(a_top), platform), sc.make_ace(mk(a_bot), platform)
+    fails = []
+    tgt = top if who == "top" else bot
+    addr = getattr(tgt, side + "addr")
+    if setter == "prefix" and (" " in a_new.replace("host ", "") and not a_new.startswith("host")):
+        return [], 0                                   # a wildcard has no prefix spelling
+    try:
+        if first == "shadow_of":
+            bot.shadow_of(top)
+        elif first == "ipnets":
+            addr.ipnets()
+        elif first == "subnet_of":
+            getattr(bot, side + "addr").subnet_of(getattr(top, side + "addr"))
+        if setter == "line":
+            addr.line = a_new
+        else:
+            new_o = cisco_acl.Address(a_new, platform=platform)
+            addr.prefix = new_o.prefix
+        top_l, bot_l = top.line, bot.line
+        got = bot.shadow_of(top)
+    except Exception as ex:
+        return [dict(key=f"bounded/shadow_of:edit-history:error:{type(ex).__name__}", what=f"{arg}: {type(ex).__name__}: {ex}", inputs=dict(case=list(arg)),
+                     cmd=("import sys; sys.path.insert(0, 'props'); import C11\n"
+                          f"fails, _ = C11.check_edit_history({arg!r})\nprint([f['what'] for f in fails]); sys.exit(1 if fails else 0)\n"))], 1
+    want_top, want_bot = (mk(a_new), mk(a_bot)) if who == "top" else (mk(a_top), mk(a_new))
+    st, sb = sc.ref_sem(want_top, platform), sc.ref_sem(want_bot, platform)
+    want = sets.sem_subset(sb, st) is None
+    if bool(got) != want:
+        fails.append(dict(key=f"bounded/shadow_of:stale-after-address-edit:{'extra' if got else 'missed'}",
+                          what=f"{platform}: after `{first}` and then `{who}.{side}addr.{setter} = {a_new!r}` the entries read {bot_l!r} / {top_l!r}; shadow_of = {got}, exact answer {want}",
+                          inputs=dict(platform=platform, side=side, edited=who, top=mk(a_top), bottom=mk(a_bot), new=a_new, first_question=first, setter=setter),
+                          cmd=("import sys; sys.path.insert(0, 'props'); import C11\n"
+                               f"fails, _ = C11.check_edit_history({arg!r})\nprint([f['what'] for f in fails]); sys.exit(1 if fails else 0)\n")))
+    return fails, 1
+
+
+def edit_cases(tier):
+    out = []
+    for p in ("ios", "nxos"):
+        A = ADDRS[p]
+        for side, who, first, setter in itertools.product(("src", "dst"), ("top", "bot"), ("shadow_of", "ipnets", "subnet_of", "none"), ("line", "prefix")):
+            for a_top, a_bot, a_new in itertools.product(A, A, A):
+                out.append((p, side, who, a_top, a_bot, a_new, first, setter))
+    return out if tier == "thorough" else out[::5]
+
+
 def build_acl(lines, platform="ios", group_by=""):
     import cisco_acl
     acl = cisco_acl.Acl("ip access-list extended A" if platform == "ios" else "ip access-list A", platform=platform)
@@ -133,6 +189,17 @@ def main(chk):
     chk.add_bounded("Acl.shading report == specification from real pairwise answers", len(rc), sum(d for _, d in res),
                     f"all ACLs of <= {3 if chk.tier == 'quick' else 4} items over an {len(ALPHABET)}-kind alphabet (duplicates, deny interleaving, empty group, "
                     "empty port set, remark, nc wildcards) x skip in {[], [nc_wildcard]}", viol, time.time() - t0, [list(acls[50])], exhaustive=True)
+    t0 = time.time()
+    ec = edit_cases(chk.tier)
+    res = pmap(check_edit_history, ec)
+    viol = 0
+    for fails, _ in res:
+        for f in fails:
+            viol += 1
+            chk.finding(f["key"], f["what"], inputs=f["inputs"], cmd=f["cmd"], key=f["key"])
+    chk.add_bounded("shadow_of after one address of one entry was reassigned in place (line / prefix) following an earlier question", len(ec), sum(d for _, d in res),
+                    "6 addresses^3 x side x edited entry x first question (shadow_of, ipnets, subnet_of, none) x setter x 2 platforms" + ("" if chk.tier == "thorough" else ", every 5th"),
+                    viol, time.time() - t0, [list(ec[3])], exhaustive=chk.tier == "thorough")
     chk.assumptions += [
         "exact clauses are proved over object views (Inv(Port), Inv(Address)); the step from `every bottom network inside some top network` to set inclusion "
         "of two single wildcards (L13.exact) relies on Wildcard.ipnets' structure and is covered by the bounded pairs only",
